@@ -9,7 +9,9 @@ from ..core import Rule
 from ..model import AnalysisError, dotted, unparse, short
 from ..cfg import cfg_of
 from .. import straight as S
-from .c08 import raising_ifs
+from ..facts import facts_of
+from ..contract import entry, describe_alt, isinstance_of, refusals, unpermitted, exit_nodes
+from ..pathsum import summarize
 
 EXPLANATION = ("Use-def reconstruction of every operator of toolkit.bits.Bitset: the value and the length assigned to the result "
                "are compared, as canonical arithmetic terms, with the fixed-width model (and/or/xor -> max of both lengths; "
@@ -37,31 +39,68 @@ def _float_taint(fi):
     return bad
 
 
-def _binop_model(repo, rule, ci, name, op):
-    fi = ci.methods.get(name)
-    if fi is None:
-        rule.fail(BITS, "Bitset", 0, "operator %s missing" % name, "Bitset.%s vanished" % name)
-        return
-    other = fi.params[1]
-    try:
-        env = S.run([st for st in fi.node.body if isinstance(st, ast.Assign) and all(isinstance(t, ast.Name) for t in st.targets)])
-    except S.NotStraight as e:
-        rule.fail_fn(fi, fi.node, "%s not straight-line" % name, str(e))
-        return
-    b = env.get("b")
-    want_val = ("call", ("fn", "Bitset"), (("op", op, ("attr", ("var", "self"), "value"), ("call", ("fn", "int"), (("var", other),), ())),), ())
-    rule.require(b == want_val, fi, "%s value" % name, "Bitset.%s computes %s" % (name, S.show(b) if b else None))
-    # b.length = max((self.length, other.length))
-    st = [s for s in fi.node.body if isinstance(s, ast.Assign) and unparse(s.targets[0]) == "b.length"]
-    ok = False
-    if st:
-        v = st[0].value
-        if isinstance(v, ast.Call) and dotted(v.func) == "max":
-            names = {unparse(x) for x in ast.walk(v) if isinstance(x, ast.Attribute)}
-            ok = names == {"self.length", "%s.length" % other}
-    rule.require(ok, fi, "%s width = max of both" % name, "Bitset.%s sets the result width to %s; the model takes the longer operand's width" % (name, unparse(st[0].value) if st else None))
-    rets = [x for x in ast.walk(fi.node) if isinstance(x, ast.Return)]
-    rule.require(len(rets) == 1 and unparse(rets[0].value) == "b", fi, "%s returns the new bitset" % name, "Bitset.%s returns %s" % (name, unparse(rets[0].value) if rets else None))
+SV = ("attr", ("var", "self"), "value")
+SL = ("attr", ("var", "self"), "length")
+LEN_SELF = [("call", ("fn", "len"), (("var", "self"),), ()), SL]
+
+
+def _int(x):
+    return ("call", ("fn", "int"), (x,), ())
+
+
+def _attr(x, a):
+    return ("attr", x, a)
+
+
+def _either(op, a, b):
+    return [("op", op, a, b), ("op", op, b, a)]
+
+
+def _mask(L):
+    return ("op", "Sub", ("op", "LShift", ("const", 1), L), ("const", 1))
+
+
+def _maxlen(a, b):
+    return [("call", ("fn", "max"), (a, b), ()), ("call", ("fn", "max"), (b, a), ()), ("call", ("fn", "max"), (("tuple", (a, b)),), ()),
+            ("call", ("fn", "max"), (("tuple", (b, a)),), ())]
+
+
+def results(fi):
+    """[(path, value term, length term or None)] of the Bitset every normal path of `fi` returns:
+    Bitset(v, l) directly, or a local b = Bitset(v) whose b.length was set before it is returned."""
+    out = []
+    for ps in summarize(fi):
+        if ps.exc is not None or not ps.returned:
+            continue
+        rt = ps.ret
+        name = None
+        # `return b`: pathsum substituted b's value; recover which local it was to find its .length store
+        for k, v in ps.env.items():
+            if "." not in k and v == rt and (k + ".length") in ps.env:
+                name = k
+        if rt is not None and rt[0] == "call" and rt[1] == ("fn", "Bitset"):
+            kw = dict(rt[3])
+            v = rt[2][0] if rt[2] else kw.get("value")
+            ln = rt[2][1] if len(rt[2]) > 1 else kw.get("length")
+            if name is not None:
+                ln = ps.env[name + ".length"]
+            out.append((ps, v, ln))
+        else:
+            out.append((ps, None, None))
+    return out
+
+
+def _op_table(other):
+    o = ("var", other)
+    ol = _attr(o, "length")
+    return {
+        "__and__": (_either("BitAnd", SV, _int(o)), _maxlen(SL, ol), "value & int(other), width max(self.length, other.length)"),
+        "__or__": (_either("BitOr", SV, _int(o)), _maxlen(SL, ol), "value | int(other), width max(self.length, other.length)"),
+        "__xor__": ([S.xor(SV, _int(o))], _maxlen(SL, ol), "value ^ int(other), width max(self.length, other.length)"),
+        "__invert__": (_either("BitAnd", ("un", "Invert", SV), _mask(SL)), [SL], "~value & ((1 << length) - 1), width self.length"),
+        "__lshift__": (_either("BitAnd", ("op", "LShift", SV, _int(o)), _mask(SL)), [SL], "(value << n) & ((1 << length) - 1), width self.length"),
+        "__rshift__": ([("op", "RShift", SV, _int(o))], [SL], "value >> n, width self.length"),
+    }
 
 
 def check(repo):
@@ -87,89 +126,95 @@ def check(repo):
     init = ci.methods.get("__init__")
     if init is None:
         raise AnalysisError("Bitset.__init__ vanished")
-    ln = [st for st in ast.walk(init.node) if isinstance(st, ast.Assign) and unparse(st.targets[0]) == "self.length"]
-    ok = len(ln) >= 1 and all("bit_length()" in unparse(s.value) or unparse(s.value) in ("0", "length") for s in ln) and any("bit_length()" in unparse(s.value) for s in ln)
-    r1.require(ok, init, "minimal width from bit_length", "Bitset.__init__ derives the default width from %s; it must be value.bit_length()" % [unparse(s.value) for s in ln])
-    main = [s for s in ln if "bit_length()" in unparse(s.value)]
-    if main:
-        r1.require(unparse(main[0].value).startswith("length or"), init, "explicit length wins", "Bitset.__init__ no longer prefers the explicit length")
-    # ---------------------------------------------------------------- R18.2
-    _binop_model(repo, r2, ci, "__and__", "BitAnd")
-    _binop_model(repo, r2, ci, "__or__", "BitOr")
-    fx = ci.methods.get("__xor__")
-    if fx is not None:
-        other = fx.params[1]
-        src = unparse(fx.node)
-        r2.require("Bitset(self.value ^ int(%s))" % other in src and "b.length = max((self.length, %s.length))" % other in src, fx, "__xor__ value and width",
-                   "Bitset.__xor__ no longer computes value ^ int(other) with width max(self.length, other.length)")
-    for name, val in (("__invert__", "Bitset(~self.value & (1 << self.length) - 1)"), ("__lshift__", None), ("__rshift__", None)):
+    _check_init(repo, r1, r3, init)
+    # ---------------------------------------------------------------- R18.2 / R18.3 operators
+    for name in ("__and__", "__or__", "__xor__", "__invert__", "__lshift__", "__rshift__"):
         f = ci.methods.get(name)
         if f is None:
             r2.fail(BITS, "Bitset", 0, "%s missing" % name, "Bitset.%s vanished" % name)
             continue
-        src = unparse(f.node)
-        r2.require("b.length = self.length" in src, f, "%s keeps its own width" % name, "Bitset.%s no longer keeps self.length as the result width" % name)
-        if name == "__invert__":
-            r3.require("(1 << self.length) - 1" in src and "~self.value &" in src, f, "invert is masked to the width", "Bitset.__invert__ no longer masks ~value with (1 << length) - 1")
-        if name == "__lshift__":
-            arg = f.params[1]
-            r3.require("self.value << int(%s) & (1 << self.length) - 1" % arg in src, f, "left shift is masked to the width", "Bitset.__lshift__ no longer drops the bits shifted out of the width")
-        if name == "__rshift__":
-            arg = f.params[1]
-            r2.require("Bitset(self.value >> int(%s))" % arg in src, f, "right shift value", "Bitset.__rshift__ no longer computes value >> n")
+        other = f.params[1] if len(f.params) > 1 else "other"
+        vals, lens, text = _op_table(other)[name]
+        res = results(f)
+        okv = bool(res) and all(v in vals for _p, v, _l in res)
+        okl = bool(res) and all(ln in lens for _p, _v, ln in res)
+        masked = name in ("__invert__", "__lshift__")
+        (r3 if masked else r2).require(okv, f, ("%s is masked to the width" if masked else "%s value") % name,
+                                       "Bitset.%s computes %s; the fixed-width model is %s" % (name, [S.show(v)[:80] if v else None for _p, v, _l in res], text))
+        r2.require(okl, f, "%s result width" % name, "Bitset.%s sets the result width to %s; the model is %s" % (name, [S.show(ln)[:60] if ln else None for _p, _v, ln in res], text))
     cc = ci.methods.get("concat")
     if cc is not None:
-        o = cc.params[1]
-        rets = [x for x in ast.walk(cc.node) if isinstance(x, ast.Return)]
-        ok = len(rets) == 1 and unparse(rets[0].value) == "Bitset((self.value << %s.length) + %s.value, self.length + %s.length)" % (o, o, o)
+        o = ("var", cc.params[1])
+        res = results(cc)
+        shifted = ("op", "LShift", SV, _attr(o, "length"))
+        vals = [("cat", (shifted, _attr(o, "value"))), ("cat", (_attr(o, "value"), shifted))] + _either("BitOr", shifted, _attr(o, "value"))
+        lens = [("cat", (SL, _attr(o, "length"))), ("cat", (_attr(o, "length"), SL))]
+        ok = bool(res) and all(v in vals and ln in lens for _p, v, ln in res)
         r2.require(ok, cc, "concat: left shifted by the right operand's length, lengths added",
-                   "Bitset.concat returns %s; expected Bitset((self.value << other.length) + other.value, self.length + other.length)" % (unparse(rets[0].value) if rets else None))
-        r3.require(any(exc == "ValueError" and "isinstance" in unparse(st.test) for st, exc in raising_ifs(cc)), cc, "concat refuses non-Bitset", "Bitset.concat no longer refuses a non-Bitset operand")
+                   "Bitset.concat returns %s; expected Bitset((self.value << other.length) + other.value, self.length + other.length)" % [
+                       (S.show(v)[:80] if v else None, S.show(ln)[:50] if ln else None) for _p, v, ln in res])
+        Fc = facts_of(cc)
+        ref = refusals(Fc, isinstance_of(entry(cc.params[1]), False))
+        bad = unpermitted(Fc, exit_nodes(Fc), [isinstance_of(entry(cc.params[1]), True)])
+        r3.require(bool(ref) and not bad, cc, "concat refuses non-Bitset", "Bitset.concat no longer refuses a non-Bitset operand")
     ad = ci.methods.get("__add__")
-    r2.require(ad is not None and unparse(ad.node.body[-1]) == "return self.concat(%s)" % ad.params[1], ad or cc, "+ is concat", "Bitset.__add__ is no longer concat")
-    for name, expr in (("get_higher_bits", "Bitset(self >> max(self.length - bit_len, 0), bit_len)"),
-                       ("get_lower_bits", "Bitset(self << max(self.length - bit_len, 0) >> max(self.length - bit_len, 0), bit_len)")):
+    rets = [ps.ret for ps in summarize(ad) if ps.exc is None] if ad is not None else []
+    r2.require(bool(rets) and all(rt == ("call", ("fn", "self.concat"), (("var", ad.params[1]),), ()) for rt in rets), ad or cc, "+ is concat", "Bitset.__add__ is no longer concat")
+    for name in ("get_higher_bits", "get_lower_bits"):
         f = ci.methods.get(name)
         if f is None:
             r2.fail(BITS, "Bitset", 0, "%s missing" % name, "Bitset.%s vanished" % name)
             continue
-        k = f.params[1]
-        rets = [x for x in ast.walk(f.node) if isinstance(x, ast.Return)]
-        want = expr.replace("bit_len", k)
-        r2.require(len(rets) == 1 and unparse(rets[0].value) == want, f, "%s shape" % name, "Bitset.%s returns %s; expected %s" % (name, unparse(rets[0].value) if rets else None, want))
-        gs = [unparse(st.test) for st, exc in raising_ifs(f) if exc == "ValueError"]
-        r3.require("%s < 0" % k in gs and "%s > self.length" % k in gs, f, "%s refuses k < 0 and k > length" % name, "Bitset.%s guards are %s" % (name, gs))
+        k = ("var", f.params[1])
+        drops = [("call", ("fn", "max"), (("op", "Sub", SL, k), ("const", 0)), ()), ("call", ("fn", "max"), (("const", 0), ("op", "Sub", SL, k)), ()), ("op", "Sub", SL, k)]
+        slf = ("var", "self")
+        if name == "get_higher_bits":
+            vals = [("op", "RShift", slf, d) for d in drops]
+            text = "Bitset(self >> (length - k), k)"
+        else:
+            vals = [("op", "RShift", ("op", "LShift", slf, d), d) for d in drops]
+            text = "Bitset((self << (length - k)) >> (length - k), k)"
+        res = results(f)
+        ok = bool(res) and all(v in vals and ln == k for _p, v, ln in res)
+        r2.require(ok, f, "%s shape" % name, "Bitset.%s returns %s; expected %s" % (name, [(S.show(v)[:80] if v else None, S.show(ln) if ln else None) for _p, v, ln in res], text))
+        Fg = facts_of(f)
+        kk = entry(f.params[1])
+        inrange = unpermitted(Fg, exit_nodes(Fg), [lambda key, t: key == ("<", kk, "0") and not t])
+        inrange2 = unpermitted(Fg, exit_nodes(Fg), [lambda key, t: key == ("<", "self.length", kk) and not t, lambda key, t: key == ("<", "len(self)", kk) and not t])
+        refs = refusals(Fg, lambda key, t: (key == ("<", kk, "0") and t) or (key in (("<", "self.length", kk), ("<", "len(self)", kk)) and t))
+        r3.require(not inrange and not inrange2 and bool(refs), f, "%s refuses k < 0 and k > length" % name,
+                   "Bitset.%s can return without having established 0 <= k <= length%s" % (name, " [%s]" % describe_alt((inrange or inrange2)[0][1]) if (inrange or inrange2) else ""))
     fb = ci.methods.get("__bytes__")
     if fb is not None:
-        src = unparse(fb.node)
-        r2.require("output_length = (self.length + 7) // 8" in src and "self.value.to_bytes(output_length, byteorder='big')" in src, fb, "bytes: ceil(length / 8) big-endian",
-                   "Bitset.__bytes__ no longer encodes the value in (length + 7) // 8 big-endian bytes")
-    fl, fi_ = ci.methods.get("__len__"), ci.methods.get("__int__")
-    r2.require(fl is not None and unparse(fl.node.body[-1]) == "return self.length", fl or init, "len is the width", "Bitset.__len__ no longer returns self.length")
-    r2.require(fi_ is not None and unparse(fi_.node.body[-1]) == "return self.value", fi_ or init, "int is the value", "Bitset.__int__ no longer returns self.value")
+        widths = [("op", "FloorDiv", ("cat", (SL, ("const", 7))), ("const", 8)), ("op", "FloorDiv", ("cat", (("const", 7), SL)), ("const", 8))]
+        ok = True
+        rets = [ps.ret for ps in summarize(fb) if ps.exc is None]
+        for rt in rets:
+            if not (rt is not None and rt[0] == "call" and rt[1] in (("method", SV, "to_bytes"), ("fn", "self.value.to_bytes"))):
+                ok = False
+                continue
+            kw = dict(rt[3])
+            w = rt[2][0] if rt[2] else kw.get("length")
+            o = rt[2][1] if len(rt[2]) > 1 else kw.get("byteorder", ("const", "big"))
+            if w not in widths or o != ("const", "big"):
+                ok = False
+        r2.require(ok and bool(rets), fb, "bytes: ceil(length / 8) big-endian", "Bitset.__bytes__ no longer encodes the value in (length + 7) // 8 big-endian bytes")
+    for nm, want, what in (("__len__", SL, "len is the width"), ("__int__", SV, "int is the value")):
+        f = ci.methods.get(nm)
+        rets = [ps.ret for ps in summarize(f) if ps.exc is None] if f is not None else []
+        r2.require(bool(rets) and all(rt == want for rt in rets), f or init, what, "Bitset.%s no longer returns %s" % (nm, S.show(want)))
     fe = ci.methods.get("__eq__")
-    r2.require(fe is not None and "self.value == other.value and self.length == other.length" in unparse(fe.node), fe or init, "equality compares value and width", "Bitset.__eq__ no longer compares value and length")
+    if fe is not None:
+        o = ("var", fe.params[1])
+        c1 = [("cmp", ("Eq",), (SV, _attr(o, "value"))), ("cmp", ("Eq",), (_attr(o, "value"), SV))]
+        c2 = [("cmp", ("Eq",), (SL, _attr(o, "length"))), ("cmp", ("Eq",), (_attr(o, "length"), SL))]
+        rets = [ps.ret for ps in summarize(fe) if ps.exc is None]
+        ok = any(rt is not None and rt[0] == "bool" and rt[1] == "And" and any(x in c1 for x in rt[2]) and any(x in c2 for x in rt[2]) for rt in rets)
+    r2.require(fe is not None and ok, fe or init, "equality compares value and width", "Bitset.__eq__ no longer compares value and length")
     # ---------------------------------------------------------------- R18.5 indexing / slicing / iteration / str
     r5 = Rule("R18.5", "indexing, slicing, iteration and str test bit (length - position - 1) of the value; no string round trip")
     rules.append(r5)
-    gi = ci.methods.get("__getitem__")
-    si = ci.methods.get("__setitem__")
-    for f, nm in ((gi, "__getitem__"), (si, "__setitem__")):
-        if f is None:
-            r5.fail(BITS, "Bitset", 0, "%s missing" % nm, "Bitset.%s vanished" % nm)
-            continue
-        src = unparse(f.node)
-        idx = f.params[1]
-        ok = "%s.indices(len(self))" % idx in src and "for position in range(start, stop, step)" in src and "pos = len(self) - position - 1" in src and \
-            "pos = len(self) - %s - 1" % idx in src and "1 << pos" in src
-        r5.require(ok, f, "%s bit positions" % nm, "Bitset.%s no longer addresses bit (len - position - 1) for every position of range(*slice.indices(len))" % nm)
-    if gi is not None:
-        src = unparse(gi.node)
-        r5.require("results.append(bool(self.value & 1 << pos))" in src and "return bool(self.value & 1 << pos)" in src, gi, "__getitem__ reads bits of the value",
-                   "Bitset.__getitem__ no longer returns bool(value & (1 << pos))")
-    for nm, body in (("__iter__", ["for i in self[:]:", "yield i"]), ("__str__", ["for i in self[:]:", "'1' if i else '0'"])):
-        f = ci.methods.get(nm)
-        r5.require(f is not None and all(b in unparse(f.node) for b in body), f or init, "%s walks self[:]" % nm, "Bitset.%s no longer walks the bits of self[:]" % nm)
+    _check_indexing(repo, r5, ci, init)
     for m_rel in (BITS, BU):
         for fi in repo.module(m_rel).all_functions():
             if fi.name in ("__repr__", "__str__"):
@@ -188,29 +233,232 @@ def check(repo):
                     r5.fail_fn(fi, bad, "string round trip in %s" % fi.name,
                                "%s derives bits through a string (%s): formatting loses the width for length 0 and for values wider than the length" % (fi.qual, short(bad)))
     r5.ok()
-
-    # ---------------------------------------------------------------- R18.3 constructor guard
-    gs = [st for st, exc in raising_ifs(init) if exc == "ValueError" and "bit_length()" in unparse(st.test) and "> length" in unparse(st.test)]
-    if r3.require(bool(gs), init, "value fits the explicit length", "Bitset.__init__ no longer refuses a value wider than the explicit length"):
-        cfg = cfg_of(init.node)
-        stores = [n.id for n in cfg.nodes if n.kind == "stmt" and isinstance(n.stmt, ast.Assign) and unparse(n.stmt.targets[0]) in ("self.value", "self.length")]
-        r3.require(all(cfg.dominates(cfg.nodes_of(gs[0])[0], s) for s in stores), init, "width check precedes the stores", "Bitset stores value/length before checking the width")
-    src = unparse(init.node)
-    r3.require("isinstance(value, bytes)" in src and "int_from_bytes(value)" in src and "isinstance(value, Bitset)" in src, init, "bytes / Bitset inputs converted", "Bitset.__init__ no longer converts bytes / Bitset inputs")
     # ---------------------------------------------------------------- R18.4 halving
-    for name in ("half_bits", "half_bits_not_padding"):
-        f = repo.func(BU, name)
-        src = unparse(f.node)
-        x = f.params[0]
-        ok = "half_len = (len(%s) + 1) // 2" % x in src and "right_half = %s.get_lower_bits(half_len)" % x in src and \
-            "left_half = %s.get_higher_bits(len(%s) - half_len)" % (x, x) in src and "return left_half, right_half" in src.replace("(left_half, right_half)", "left_half, right_half")
-        r4.require(ok, f, "%s splits at (n + 1) // 2" % name, "%s no longer splits into the low (n + 1) // 2 bits and the remaining high bits" % name)
-        if name == "half_bits":
-            r4.require("left_half.length = half_len" in src, f, "padding variant equalises the halves", "half_bits no longer pads the left half to the right half's length")
-        else:
-            r4.require(".length =" not in src, f, "non-padding variant leaves lengths alone", "half_bits_not_padding changes a half's length")
+    _check_halving(repo, r4)
     r1.require(n_fn >= 20, init, "functions floor", "only %d functions of bits.py / bits_utils.py analysed" % n_fn)
     return rules
+
+
+def _check_init(repo, r1, r3, init):
+    vp, lp = init.params[1], init.params[2]
+    v0 = ("var", vp)
+    bl = lambda x: ("call", ("method", x, "bit_length"), (), ())  # noqa: E731
+    seen_bytes = seen_bits = False
+    ok_store = ok_len = True
+    paths = [ps for ps in summarize(init) if ps.exc is None]
+    shown = None
+    for ps in paths:
+        val = ps.env.get(vp, v0)
+        if ps.has(isinstance_ghost(vp, "Bitset")):
+            seen_bits = True
+            if val != _int(v0):
+                ok_store = False
+        elif ps.has(isinstance_ghost(vp, "bytes")):
+            seen_bytes = True
+            if val not in (("call", ("fn", "int_from_bytes"), (v0,), ()), ("call", ("fn", "int.from_bytes"), (v0, ("const", "big")), ())):
+                ok_store = False
+        if ps.store("value") != val:
+            ok_store = False
+        ln = ps.store("length")
+        shown = ln
+        L0 = ps.env.get(lp, ("var", lp))
+        minimal = [bl(val), ("ifexp", ("cmp", ("Gt",), (val, ("const", 0))), bl(val), ("const", 0)), ("ifexp", ("cmp", ("Lt",), (("const", 0), val)), bl(val), ("const", 0))]
+        forms = [("bool", "Or", (L0, m)) for m in minimal] + [("ifexp", L0, L0, m) for m in minimal]
+        explicit = ps.has(lambda k, t: (k == ("truth", entry(lp)) and t) or (k[0] == "==" and "0" in k[1:] and entry(lp) in k[1:] and not t))
+        absent = ps.has(lambda k, t: (k == ("truth", entry(lp)) and not t) or (k[0] == "==" and "0" in k[1:] and entry(lp) in k[1:] and t))
+        if not (ln in forms or (explicit and ln == L0) or (absent and ln in minimal)):
+            ok_len = False
+    r1.require(bool(paths) and ok_len, init, "minimal width from bit_length; explicit length wins",
+               "Bitset.__init__ derives the width as %s; it must be the explicit length, else value.bit_length()" % (S.show(shown)[:120] if shown else None))
+    r3.require(bool(paths) and ok_store and seen_bits and seen_bytes, init, "bytes / Bitset inputs converted", "Bitset.__init__ no longer converts bytes / Bitset inputs into the stored integer")
+    from .c08 import bitset_width_checked
+    ok, why = bitset_width_checked(init)
+    r3.require(ok, init, "value fits the explicit length" if why != "dominates" else "width check precedes the stores",
+               "Bitset.__init__ no longer refuses a value wider than the explicit length" if why != "dominates" else "Bitset stores value/length before checking the width")
+
+
+def isinstance_ghost(param, tname):
+    pe = isinstance_of(entry(param), True)
+
+    def pred(k, t):
+        if not pe(k, t):
+            return False
+        return k[1].endswith(", %s)" % tname) or ("(%s," % tname in k[1]) or (" %s," % tname in k[1]) or (", %s)" % tname in k[1])
+    return pred
+
+
+def _pos_forms(x):
+    out = []
+    for ln in LEN_SELF:
+        out.append(("op", "Sub", ("op", "Sub", ln, x), ("const", 1)))
+        out.append(("op", "Sub", ("op", "Sub", ln, ("const", 1)), x))
+        out.append(("op", "Sub", ln, ("cat", (x, ("const", 1)))))
+    return out
+
+
+def _bit_forms(p):
+    sh = ("op", "LShift", ("const", 1), p)
+    ands = _either("BitAnd", SV, sh)
+    out = [("call", ("fn", "bool"), (a,), ()) for a in ands]
+    out += [("cmp", ("NotEq",), (a, ("const", 0))) for a in ands]
+    out += [("call", ("fn", "bool"), (x,), ()) for x in _either("BitAnd", ("op", "RShift", SV, p), ("const", 1))]
+    return out
+
+
+def _check_indexing(repo, r5, ci, init):
+    gi = ci.methods.get("__getitem__")
+    if gi is None:
+        r5.fail(BITS, "Bitset", 0, "__getitem__ missing", "Bitset.__getitem__ vanished")
+    else:
+        sp = ("var", gi.params[1])
+        ind = ("call", ("method", sp, "indices"), (LEN_SELF[0],), ())
+        ind2 = ("call", ("method", sp, "indices"), (LEN_SELF[1],), ())
+        loopvars = [("elem", ("call", ("fn", "range"), tuple(("proj", i_, j) for j in range(3)), ())) for i_ in (ind, ind2)] + \
+                   [("elem", ("call", ("fn", "range"), (("star", i_),), ())) for i_ in (ind, ind2)]
+        slice_ok = int_ok = False
+        bad = None
+        for ps in summarize(gi, unroll=1, follow_exc=True):
+            if ps.exc is not None:
+                continue
+            for _n, c, _f in ps.calls:
+                if c[0] == "call" and c[1][0] == "method" and c[1][2] == "append" and len(c[2]) == 1:
+                    if any(c[2][0] in _bit_forms(p) for lv in loopvars for p in _pos_forms(lv)):
+                        slice_ok = True
+                    else:
+                        bad = c[2][0]
+            if ps.ret is not None and any(ps.ret in _bit_forms(p) for p in _pos_forms(sp)):
+                int_ok = True
+        r5.require(slice_ok and bad is None, gi, "__getitem__ slice reads bit (len - position - 1)",
+                   "Bitset.__getitem__ no longer collects bool(value & (1 << (len - position - 1))) for every position of range(*slice.indices(len))%s" % (
+                       " (collects %s)" % S.show(bad)[:100] if bad else ""))
+        r5.require(int_ok, gi, "__getitem__ reads bits of the value", "Bitset.__getitem__ no longer returns bool(value & (1 << (len - index - 1))) for an integer index")
+    si = ci.methods.get("__setitem__")
+    if si is None:
+        r5.fail(BITS, "Bitset", 0, "__setitem__ missing", "Bitset.__setitem__ vanished")
+    else:
+        sp, vp = ("var", si.params[1]), si.params[2]
+        ind = [("call", ("method", sp, "indices"), (ln,), ()) for ln in LEN_SELF]
+        loopvars = [("elem", ("call", ("fn", "range"), tuple(("proj", i_, j) for j in range(3)), ())) for i_ in ind] + [("elem", ("call", ("fn", "range"), (("star", i_),), ())) for i_ in ind]
+        positions = [p for lv in loopvars + [sp] for p in _pos_forms(lv)]
+        sets = [x for p in positions for x in _either("BitOr", SV, ("op", "LShift", ("const", 1), p))]
+        clears = [x for p in positions for x in _either("BitAnd", SV, ("un", "Invert", ("op", "LShift", ("const", 1), p)))]
+        seen_set = seen_clear = False
+        okw = True
+
+        def peel(t, kinds):
+            """value term built by repeatedly applying set / clear steps to self.value"""
+            nonlocal seen_set, seen_clear
+            depth = 0
+            while t != SV and depth < 4:
+                depth += 1
+                nxt = None
+                if t[0] == "op" and t[1] in ("BitOr", "BitAnd"):
+                    for inner in (t[2], t[3]):
+                        rest = t[3] if inner is t[2] else t[2]
+                        probe = ("op", t[1], SV, rest)
+                        if (t[1] == "BitOr" and probe in sets) or (t[1] == "BitAnd" and probe in clears):
+                            kinds.add(t[1])
+                            nxt = inner
+                            break
+                if nxt is None:
+                    return False
+                t = nxt
+            return t == SV
+        for ps in summarize(si, unroll=1, follow_exc=True):
+            if ps.exc is not None:
+                continue
+            v = ps.store("value")
+            if v is None:
+                continue
+            kinds = set()
+            if not peel(v, kinds):
+                okw = False
+                continue
+            truthy = ps.has(lambda k, t: k == ("truth", entry(vp)) and t)
+            falsy = ps.has(lambda k, t: k == ("truth", entry(vp)) and not t)
+            if truthy and kinds - {"BitOr"}:
+                okw = False
+            if falsy and kinds - {"BitAnd"}:
+                okw = False
+            seen_set = seen_set or (truthy and "BitOr" in kinds)
+            seen_clear = seen_clear or (falsy and "BitAnd" in kinds)
+        r5.require(okw and seen_set and seen_clear, si, "__setitem__ bit positions",
+                   "Bitset.__setitem__ no longer sets / clears bit (len - position - 1) of the value for every addressed position (set when the new value is true, clear otherwise)")
+    it = ci.methods.get("__iter__")
+    ok = False
+    if it is not None:
+        whole = [("slice", ("var", "self"), None, None)]
+        for ps in summarize(it, unroll=1):
+            ys = [c for _n, c, _f in ps.calls if c[0] == "yield"]
+            if ys and all(y[1] in [("elem", w) for w in whole] for y in ys):
+                ok = True
+            if ps.ret is not None and ps.ret in [("call", ("fn", "iter"), (w,), ()) for w in whole]:
+                ok = True
+        if any(isinstance(x, ast.YieldFrom) and unparse(x.value) == "self[:]" for x in ast.walk(it.node)):
+            ok = True
+    r5.require(ok, it or init, "__iter__ walks self[:]", "Bitset.__iter__ no longer walks the bits of self[:]")
+    st = ci.methods.get("__str__")
+    ok = False
+    if st is not None:
+        for x in ast.walk(st.node):
+            src_ok = lambda e: unparse(e) in ("self[:]", "self", "iter(self)", "list(self)")  # noqa: E731
+            tgt = None
+            if isinstance(x, ast.For) and src_ok(x.iter) and isinstance(x.target, ast.Name):
+                tgt, scope = x.target.id, x
+            elif isinstance(x, (ast.GeneratorExp, ast.ListComp)) and len(x.generators) == 1 and src_ok(x.generators[0].iter) and isinstance(x.generators[0].target, ast.Name):
+                tgt, scope = x.generators[0].target.id, x
+            if tgt is None:
+                continue
+            for y in ast.walk(scope):
+                if isinstance(y, ast.IfExp) and isinstance(y.test, ast.Name) and y.test.id == tgt and isinstance(y.body, ast.Constant) and y.body.value == "1" and \
+                        isinstance(y.orelse, ast.Constant) and y.orelse.value == "0":
+                    ok = True
+                if isinstance(y, ast.Subscript) and isinstance(y.value, ast.Constant) and y.value.value == "01" and tgt in unparse(y.slice):
+                    ok = True
+    r5.require(ok, st or init, "__str__ walks self[:]", "Bitset.__str__ no longer renders '1' / '0' for each bit of self[:]")
+
+
+def _check_halving(repo, r4):
+    for name in ("half_bits", "half_bits_not_padding"):
+        f = repo.func(BU, name)
+        x0 = ("var", f.params[0])
+        seen = False
+        okh = True
+        pad_seen = False
+        shown = None
+        for ps in summarize(f):
+            if ps.exc is not None:
+                continue
+            rt = ps.ret
+            shown = rt
+            H = None
+            for X in (x0, ("call", ("fn", "Bitset"), (x0,), ())):
+                lx = ("call", ("fn", "len"), (X,), ())
+                Hc = [("op", "FloorDiv", ("cat", (lx, ("const", 1))), ("const", 2)), ("op", "FloorDiv", ("cat", (("const", 1), lx)), ("const", 2))]
+                rights = [("call", ("method", X, "get_lower_bits"), (h,), ()) for h in Hc]
+                lefts = [("call", ("method", X, "get_higher_bits"), (("op", "Sub", lx, h),), ()) for h in Hc] + [("call", ("method", X, "get_higher_bits"), (("op", "FloorDiv", lx, ("const", 2)),), ())]
+                if rt is not None and rt[0] == "tuple" and len(rt[1]) == 2 and rt[1][0] in lefts and rt[1][1] in rights:
+                    H = Hc
+            if H is None:
+                okh = False
+                continue
+            seen = True
+            pads = {k: v for k, v in ps.env.items() if k.endswith(".length") and not k.startswith("self.")}
+            if name == "half_bits_not_padding":
+                if pads:
+                    r4.fail_fn(f, f.node, "non-padding variant leaves lengths alone", "half_bits_not_padding changes a half's length")
+            else:
+                short_left = ps.has(lambda k, t: k[0] == "<" and k[1].startswith("len(") and t)
+                if short_left:
+                    pad_seen = True
+                    if not (len(pads) == 1 and list(pads.values())[0] in H):
+                        r4.fail_fn(f, f.node, "padding variant equalises the halves", "half_bits no longer pads the left half to the right half's length")
+                elif pads and not all(v in H for v in pads.values()):
+                    okh = False
+        r4.require(okh and seen, f, "%s splits at (n + 1) // 2" % name,
+                   "%s no longer splits into the low (n + 1) // 2 bits and the remaining high bits (returns %s)" % (name, S.show(shown)[:140] if shown else None))
+        if name == "half_bits":
+            r4.require(pad_seen, f, "padding variant equalises the halves", "half_bits no longer pads the left half to the right half's length")
 
 
 # ----------------------------------------------------------------------------- self-test variants
